@@ -52,7 +52,9 @@ impl Sched {
         let threads = if thorough && rng.chance(1, 3) {
             rng.range(1, 64) as usize
         } else {
-            *rng.pick(&[1usize, 2, 3, 5, 8, 16])
+            // mostly the pools of the property text, sometimes more workers
+            // than a small circuit has rows
+            *rng.pick(&[1usize, 2, 3, 5, 8, 16, 1, 2, 3, 5, 8, 16, 17, 24, 40])
         };
         Sched { threads, permute: rng.chance(3, 4), seed: rng.u64() }
     }
